@@ -528,6 +528,11 @@ def backendIncomplete (st : St) : St :=
     a chunked body without last-chunk -/
 def bodyTruncated (st : St) : Bool := st.scratch > 0 || (st.dc.isSome && st.dcDone = 0)
 
+/-- http_response_backend_abort(): the backend response is incomplete and the response head is
+    already out: the connection cannot be reused; an HTTP/2 stream is flagged for RST_STREAM -/
+def backendAbort (cfg : Cfg) (st : St) : St :=
+  { st with keepAlive := false, cerr := st.cerr || decide (cfg.ver ≥ 2) }
+
 /-- http_response_backend_done() -/
 def backendDone (cfg : Cfg) (st : St) : St :=
   if st.cstate = .done then st
@@ -537,14 +542,14 @@ def backendDone (cfg : Cfg) (st : St) : St :=
     if bodyTruncated st && !st.hdrSent then backendIncomplete st
     else
       -- (head already sent: the connection cannot be reused)
-      let st1 : St := if bodyTruncated st then { st with keepAlive := false } else st
+      let st1 : St := if bodyTruncated st then backendAbort cfg st else st
       { (if cfg.ver = 1 then chunkClose st1 else st1) with finished := true }
   else st
 
 /-- http_response_backend_error() -/
-def backendError (st : St) : St :=
+def backendError (cfg : Cfg) (st : St) : St :=
   if st.started && !st.hdrSent then backendIncomplete st
-  else if st.started then { st with handler := false, keepAlive := false, finished := true }
+  else if st.started then { (backendAbort cfg st) with handler := false, finished := true }
   else st
 
 /-- gw_connection_close() -/
@@ -553,7 +558,7 @@ def gwClose (cfg : Cfg) (st : St) : St :=
   if st1.handler then backendDone cfg st1 else st1
 
 /-- gw_backend_error() -/
-def gwBackendError (cfg : Cfg) (st : St) : St := gwClose cfg (backendError st)
+def gwBackendError (cfg : Cfg) (st : St) : St := gwClose cfg (backendError cfg st)
 
 /-- gw_recv_response() for a read that returned data -/
 def gwRecvData (cfg : Cfg) (st : St) (seg : Bytes) : St :=
@@ -749,6 +754,8 @@ def endStreamEv (st : St) : Ev :=
 
 /-- HTTP/2 stream in the write state: DATA as far as allowed, END_STREAM when finished -/
 def h2Progress (cfg : Cfg) (st : St) : St :=
+  -- (stream flagged as failed after HEADERS: RST_STREAM, what is still queued is dropped)
+  if st.cerr then { st with cstate := .done, evs := st.evs ++ [.rst] } else
   let st1 := if st.finished || cfg.streaming then flush st else st
   if st1.finished then { st1 with cstate := .done, evs := st1.evs ++ [endStreamEv st1] } else st1
 
